@@ -20,6 +20,7 @@ class TranslateError(Exception):
 
 
 INT, FLOAT, BOOL, ARR, INTLIST, IDL, IDLLIST, BOOLLIST = "Z", "Q", "bool", "(list Q)", "(list Z)", "idl", "(list idl)", "(list bool)"
+STR, STRLIST, DICT = "string", "(list string)", "(list (string * Q))"
 EXN = {"IndexError": "IndexError", "ValueError": "ValueError", "ZeroDivisionError": "ZeroDivisionError", "TypeError": "TypeError"}
 
 
@@ -30,7 +31,9 @@ def _d(node):
 class Fn:
     """Translation of one function body."""
 
-    def __init__(self, name, params, ret, aliases=None, consts=None):
+    def __init__(self, name, params, ret, aliases=None, consts=None, hints=None, stores=None):
+        self.hints = hints or {}
+        self.stores = stores or {}     # ast.dump(expr) of a dictionary that is stored into -> name of the state variable
         self.name = name
         self.params = params          # list of (python name, coq type) ; None type = dropped (aliased away)
         self.ret = ret
@@ -189,6 +192,18 @@ class Fn:
         raise TranslateError("%s: comparison %s on (%s, %s)" % (self.name, op.__name__, ta, tb))
 
     def subscript(self, node, env, binds):
+        v = node.value
+        # np.intersect1d(a, b, assume_unique=True, return_indices=True)[1]
+        if isinstance(v, ast.Call) and isinstance(v.func, ast.Attribute) and v.func.attr == "intersect1d" \
+                and isinstance(v.func.value, ast.Name) and v.func.value.id == "np":
+            kws = {k.arg: k.value for k in v.keywords}
+            if len(v.args) == 2 and set(kws) == {"assume_unique", "return_indices"} \
+                    and all(isinstance(x, ast.Constant) and x.value is True for x in kws.values()) \
+                    and isinstance(node.slice, ast.Constant) and node.slice.value == 1:
+                (a, ta), (b, tb) = [self.expr(x, env, binds) for x in v.args]
+                if ta == IDL and tb == IDL:
+                    return "(py_intersect1d_pos (cfgs %s) (cfgs %s))" % (a, b), INTLIST
+            raise TranslateError("%s: np.intersect1d call shape" % self.name)
         t, ty = self.expr(node.value, env, binds)
         sl = node.slice
         if isinstance(sl, ast.Slice):
@@ -200,6 +215,10 @@ class Fn:
                 raise TranslateError("%s: slice bounds" % self.name)
             return "(py_slice %s %s %s)" % (t, lo[0], hi[0]), ARR
         i, ti = self.expr(sl, env, binds)
+        if ti == INTLIST and ty == ARR:
+            r = self.fresh()
+            binds.append((r, "py_take %s %s" % (t, i)))
+            return r, ARR
         if ti != INT:
             raise TranslateError("%s: index of type %s" % (self.name, ti))
         elt = {IDL: INT, ARR: FLOAT, INTLIST: INT, IDLLIST: IDL}.get(ty)
@@ -232,7 +251,7 @@ class Fn:
         key = _d(node)
         if key in self.aliases:
             t, ty = self.aliases[key]
-            return t, {IDLLIST: IDL, INTLIST: INT}[ty]
+            return t, {IDLLIST: IDL, INTLIST: INT, STRLIST: STR}[ty]
         if isinstance(node, ast.Call) and isinstance(node.func, ast.Name) and node.func.id == "range" and not node.keywords:
             args = [self.expr(a, env, binds) for a in node.args]
             if any(ty != INT for _, ty in args):
@@ -329,6 +348,13 @@ class Fn:
             r = self.fresh()
             binds.append((r, "py_min %s" % t))
             return r, INT
+        if fname == "max" and len(node.args) == 1:
+            t, ty = self.expr(node.args[0], env, binds)
+            if ty != INTLIST:
+                raise TranslateError("%s: max of %s" % (self.name, ty))
+            r = self.fresh()
+            binds.append((r, "py_max %s" % t))
+            return r, INT
         if fname == "max" and len(node.args) == 2:
             (a, ta), (b, tb) = [self.expr(x, env, binds) for x in node.args]
             if ta == INT and tb == INT:
@@ -337,6 +363,19 @@ class Fn:
             (a, ta), (b, tb) = [self.expr(x, env, binds) for x in node.args]
             if ta == INT and tb == INT:
                 return "(Z.min %s %s)" % (a, b), INT
+        if dotted == "np.fft.irfft" and len(node.args) == 1:
+            # np.fft.irfft(np.abs(np.fft.rfft(x, P)) ** 2)
+            a = node.args[0]
+            ok = isinstance(a, ast.BinOp) and isinstance(a.op, ast.Pow) and isinstance(a.right, ast.Constant) and a.right.value == 2 \
+                and isinstance(a.left, ast.Call) and _d(a.left.func) == _d(ast.parse("np.abs", mode="eval").body) and len(a.left.args) == 1 \
+                and isinstance(a.left.args[0], ast.Call) and _d(a.left.args[0].func) == _d(ast.parse("np.fft.rfft", mode="eval").body) \
+                and len(a.left.args[0].args) == 2 and not a.left.args[0].keywords and not a.left.keywords
+            if not ok:
+                raise TranslateError("%s: np.fft.irfft of something else than np.abs(np.fft.rfft(x, P)) ** 2" % self.name)
+            (x, tx), (pp, tp) = [self.expr(e, env, binds) for e in a.left.args[0].args]
+            if tx != ARR or tp != INT:
+                raise TranslateError("%s: rfft arguments (%s, %s)" % (self.name, tx, tp))
+            return "(py_fft_autocorr %s %s)" % (x, pp), ARR
         if dotted == "np.zeros" and len(node.args) == 1:
             t, ty = self.expr(node.args[0], env, binds)
             if ty != INT:
@@ -402,7 +441,10 @@ class Fn:
                         and n.value.func.attr == "append" and isinstance(n.value.func.value, ast.Name):
                     tgt = n.value.func.value
                 if isinstance(tgt, ast.Subscript):
-                    tgt = tgt.value
+                    if _d(tgt.value) in self.stores:
+                        tgt = ast.Name(id=self.stores[_d(tgt.value)], ctx=ast.Load())
+                    else:
+                        tgt = tgt.value
                 if isinstance(tgt, ast.Name) and tgt.id not in names:
                     names.append(tgt.id)
         return names
@@ -436,6 +478,12 @@ class Fn:
                 raise TranslateError("%s: multiple assignment" % self.name)
             tgt = s.targets[0]
             b = []
+            if isinstance(tgt, ast.Name) and isinstance(s.value, ast.List) and not s.value.elts:
+                if self.hints.get(tgt.id) != INTLIST:
+                    raise TranslateError("%s: empty list literal of unknown element type (%s)" % (self.name, tgt.id))
+                env2 = dict(env)
+                env2[tgt.id] = INTLIST
+                return "let %s := ([] : list Z) in %s" % (self.v(tgt.id), nxt(env2))
             if isinstance(tgt, ast.Name):
                 t, ty = self.expr(s.value, env, b)
                 env2 = dict(env)
@@ -450,6 +498,13 @@ class Fn:
                 a = self.v(tgt.value.id)
                 b.append((a, "py_store %s %s %s" % (a, i, self.coerce(t, ty, FLOAT))))
                 return self.seq(b, nxt(env))
+            if isinstance(tgt, ast.Subscript) and _d(tgt.value) in self.stores and not isinstance(tgt.slice, ast.Slice):
+                dn = self.stores[_d(tgt.value)]
+                i, ti = self.expr(tgt.slice, env, b)
+                t, ty = self.expr(s.value, env, b)
+                if ti != STR or env.get(dn) != DICT:
+                    raise TranslateError("%s: dictionary store with a key of type %s" % (self.name, ti))
+                return self.seq(b, "let %s := (dict_put %s %s %s) in %s" % (self.v(dn), self.v(dn), i, self.coerce(t, ty, FLOAT), nxt(env)))
             raise TranslateError("%s: assignment target" % self.name)
         if isinstance(s, ast.AugAssign):
             tgt = s.target
@@ -462,6 +517,16 @@ class Fn:
                     raise TranslateError("%s: store index of type %s" % (self.name, ti))
                 a = self.v(tgt.value.id)
                 b.append((a, "py_store_add %s %s %s" % (a, i, self.coerce(t, ty, FLOAT))))
+                return self.seq(b, nxt(env))
+            if isinstance(s.op, ast.Add) and isinstance(tgt, ast.Subscript) and isinstance(tgt.value, ast.Name) \
+                    and env.get(tgt.value.id) == ARR and isinstance(tgt.slice, ast.Slice) and tgt.slice.step is None:
+                a = self.v(tgt.value.id)
+                lo = ("(0)", INT) if tgt.slice.lower is None else self.expr(tgt.slice.lower, env, b)
+                hi = ("(zlen %s)" % a, INT) if tgt.slice.upper is None else self.expr(tgt.slice.upper, env, b)
+                t, ty = self.expr(s.value, env, b)
+                if lo[1] != INT or hi[1] != INT or ty != ARR:
+                    raise TranslateError("%s: slice += with (%s, %s, %s)" % (self.name, lo[1], hi[1], ty))
+                b.append((a, "py_slice_add %s %s %s %s" % (a, lo[0], hi[0], t)))
                 return self.seq(b, nxt(env))
             raise TranslateError("%s: augmented assignment" % self.name)
         if isinstance(s, ast.Expr) and isinstance(s.value, ast.Call) and isinstance(s.value.func, ast.Attribute) \
@@ -490,6 +555,13 @@ class Fn:
                 return self.seq(b, term)
             return self.seq(b, "(if %s then %s else %s)" % (c, self.block(s.body, env, nxt), self.block(s.orelse, env, nxt)))
         if isinstance(s, ast.For):
+            if isinstance(s.target, ast.Tuple) and len(s.target.elts) == 2 and all(isinstance(e, ast.Name) for e in s.target.elts) \
+                    and isinstance(s.iter, ast.Call) and isinstance(s.iter.func, ast.Name) and s.iter.func.id == "enumerate" \
+                    and len(s.iter.args) == 1 and not s.iter.keywords and not s.orelse:
+                cnt = s.target.elts[0].id
+                if any(isinstance(n, ast.Name) and n.id == cnt for st in s.body for n in ast.walk(st)):
+                    raise TranslateError("%s: the counter of enumerate(..) is used in the loop body" % self.name)
+                s = ast.For(target=s.target.elts[1], iter=s.iter.args[0], body=s.body, orelse=[])
             if s.orelse or not isinstance(s.target, ast.Name):
                 raise TranslateError("%s: for-else / tuple target" % self.name)
             for n in ast.walk(s):
@@ -542,11 +614,66 @@ def find_function(tree, qualname):
     return node
 
 
+def _targets(stmt):
+    out = set()
+    for n in ast.walk(stmt):
+        if isinstance(n, ast.Assign):
+            for t in n.targets:
+                if isinstance(t, ast.Name):
+                    out.add(t.id)
+        if isinstance(n, ast.Call) and isinstance(n.func, ast.Attribute) and n.func.attr == "append" and isinstance(n.func.value, ast.Name):
+            out.add(n.func.value.id)
+    return out
+
+
+def frag_w_max(fn):
+    """The statements of Obs.gamma_method's per-ensemble loop that compute r_length and w_max, followed by `return w_max`."""
+    loops = [n for n in fn.body if isinstance(n, ast.For) and isinstance(n.iter, ast.Call) and _d(n.iter) ==
+             _d(ast.parse("enumerate(self.mc_names)", mode="eval").body)]
+    if len(loops) != 1:
+        raise TranslateError("gamma_method: the loop over enumerate(self.mc_names) was not found exactly once")
+    picked, seen_w = [], False
+    for st in loops[0].body:
+        tg = _targets(st)
+        mentions = {n.id for n in ast.walk(st) if isinstance(n, ast.Name)}
+        if tg & {"r_length", "w_max"}:
+            if seen_w:
+                raise TranslateError("gamma_method: r_length / w_max are assigned again after w_max")
+            picked.append(st)
+            if "w_max" in tg:
+                seen_w = True
+        elif not seen_w and "r_length" in mentions and not isinstance(st, ast.Assign):
+            raise TranslateError("gamma_method: r_length is used in an unrecognised statement before w_max")
+    if not seen_w or len(picked) != 3:
+        raise TranslateError("gamma_method: expected `r_length = []`, one loop filling it and `w_max = ...` (found %d statements)" % len(picked))
+    return picked + [ast.Return(value=ast.Name(id="w_max", ctx=ast.Load()))]
+
+
+_REP_ALIASES = lambda obj: {"e_content[e_name]": ("v_reps", IDLLIST), "%s.idl[r_name]" % obj: ("v_r_name", IDL)}
+
 # name in the generated file, qualified python name, parameters (python name, type | None = not a value parameter), return type, aliases
 SIGS = [
     dict(coq="_expand_deltas", py="_expand_deltas", params=[("deltas", ARR), ("idx", IDL), ("shape", INT), ("gapsize", INT)], ret=ARR),
     dict(coq="_merge_idx", py="_merge_idx", params=[("idl", IDLLIST)], ret=IDL),
     dict(coq="_intersection_idx", py="_intersection_idx", params=[("idl", IDLLIST)], ret=IDL),
+    dict(coq="_determine_gap", py="_determine_gap", params=[("o", None), ("e_content", None), ("e_name", None)], ret=INT,
+         extra_params=[("v_reps", IDLLIST)], aliases=_REP_ALIASES("o"), hints={"gaps": INTLIST}),
+    dict(coq="gamma_method_w_max", py="Obs.gamma_method", fragment=frag_w_max, params=[], ret=INT,
+         extra_params=[("v_reps", IDLLIST), ("v_gapsize", INT)], aliases=_REP_ALIASES("self"), hints={"r_length": INTLIST},
+         env={"gapsize": INT}),
+    dict(coq="_parse_kwarg", py="Obs.gamma_method._parse_kwarg", params=[("kwarg_name", None)], ret=DICT,
+         extra_params=[("v_kw", "(option Q)"), ("v_kw_is_number", BOOL), ("v_dict", DICT), ("v_glob", FLOAT), ("v_names", STRLIST), ("v_out", DICT)],
+         env={"out": DICT}, procedure_result="out",
+         aliases={"kwarg_name in kwargs": ("(is_some v_kw)", BOOL), "kwargs.get(kwarg_name)": ("(opt_get v_kw)", FLOAT),
+                  "isinstance(tmp, (int, float))": ("v_kw_is_number", BOOL),
+                  "e_name in getattr(Obs, kwarg_name + '_dict')": ("(is_some (dict_find v_dict v_e_name))", BOOL),
+                  "getattr(Obs, kwarg_name + '_dict')[e_name]": ("(opt_get (dict_find v_dict v_e_name))", FLOAT),
+                  "getattr(Obs, kwarg_name + '_global')": ("v_glob", FLOAT),
+                  "self.e_names": ("v_names", STRLIST)},
+         stores={"getattr(self, kwarg_name)": "out"}),
+    dict(coq="_calc_gamma", py="Obs._calc_gamma", needs=["_expand_deltas"],
+         params=[("self", None), ("deltas", ARR), ("idx", IDL), ("shape", INT), ("w_max", INT), ("fft", BOOL), ("gapsize", INT)], ret=ARR),
+    dict(coq="_reduce_deltas", py="_reduce_deltas", params=[("deltas", ARR), ("idx_old", IDL), ("idx_new", IDL)], ret=ARR),
     dict(coq="_expand_deltas_for_merge", py="_expand_deltas_for_merge",
          params=[("deltas", ARR), ("idx", IDL), ("shape", INT), ("new_idx", IDL), ("scalefactor", FLOAT)], ret=ARR),
 ]
@@ -558,34 +685,48 @@ def translate_source(src, sigs=None, only=None):
     sigs = sigs or SIGS
     out = ["(* GENERATED by translate/t_pycore.py from pyerrors/obs.py -- do not edit *)",
            "From Coq Require Import ZArith QArith List Bool.",
-           "From PV Require Import Base.QAux Obs.Model Py.Prim.",
+           "From Coq Require Import String.", "From PV Require Import Base.QAux Obs.Model Py.Prim.",
            "Import ListNotations.", "Open Scope Z_scope.", ""]
     done = {}
+    if only:
+        only = list(only)
+        for sg in sigs:
+            if sg["coq"] in only:
+                only += [n for n in sg.get("needs", []) if n not in only]
     for sg in sigs:
         if only and sg["coq"] not in only:
             continue
         fn = find_function(tree, sg["py"])
-        if fn.decorator_list or fn.args.vararg or fn.args.kwarg or fn.args.kwonlyargs or fn.args.defaults:
-            raise TranslateError("%s: decorators / defaults / *args are outside the subset" % sg["py"])
-        pyparams = [a.arg for a in fn.args.args]
-        if pyparams != [p for p, _ in sg["params"]]:
-            raise TranslateError("%s: parameters are %s, expected %s" % (sg["py"], pyparams, [p for p, _ in sg["params"]]))
+        if "fragment" in sg:
+            stmts = sg["fragment"](fn)
+        else:
+            if fn.decorator_list or fn.args.vararg or fn.args.kwarg or fn.args.kwonlyargs or fn.args.defaults:
+                raise TranslateError("%s: decorators / defaults / *args are outside the subset" % sg["py"])
+            pyparams = [a.arg for a in fn.args.args]
+            if pyparams != [p for p, _ in sg["params"]]:
+                raise TranslateError("%s: parameters are %s, expected %s" % (sg["py"], pyparams, [p for p, _ in sg["params"]]))
+            stmts = fn.body
         aliases = {}
         for src_expr, (term, ty) in (sg.get("aliases") or {}).items():
             aliases[_d(ast.parse(src_expr, mode="eval").body)] = (term, ty)
-        f = Fn(sg["coq"], sg["params"], sg["ret"], aliases, done)
+        stores = {_d(ast.parse(e, mode="eval").body): n for e, n in (sg.get("stores") or {}).items()}
+        f = Fn(sg["coq"], sg["params"], sg["ret"], aliases, done, sg.get("hints"), stores)
         env = {p: ty for p, ty in sg["params"] if ty is not None}
-        body = f.block(fn.body, env, None)
+        env.update(sg.get("env", {}))
+        fin = None
+        if sg.get("procedure_result"):      # a procedure: falling off the end returns the named state variable
+            fin = lambda e, _n=sg["procedure_result"]: "(Ok %s)" % f.v(_n)
+        body = f.block(stmts, env, fin)
         binder = " ".join("(%s : %s)" % (f.v(p), ty) for p, ty in sg["params"] if ty is not None)
         binder += "".join(" (%s : %s)" % (n, ty) for n, ty in sg.get("extra_params", []))
         out.append("Definition %s %s : res %s :=\n  %s.\n" % (sg["coq"], binder, sg["ret"], body))
-        done[sg["py"].split(".")[-1]] = sg
+        done[sg["coq"]] = sg
     return "\n".join(out), list(done)
 
 
 def translate_repo(repo="/repo", **kw):
     with open("%s/pyerrors/obs.py" % repo) as fh:
-        return translate_source(fh.read(), **kw)
+            return translate_source(fh.read(), **kw)
 
 
 if __name__ == "__main__":
